@@ -46,7 +46,7 @@ MODEL_CLASSES = {c[0] for c in ENV['classes']}
 # Which handle semantics of the memory file system the Lean model is asked to mirror: 'shared'
 # (the tree as it is: all handles of a file share one position, F130) or 'perhandle'
 # (fixes/C05-F130.patch applied).
-HANDLE_MODEL = os.environ.get('C05_HANDLE_MODEL', 'shared')
+HANDLE_MODEL = os.environ.get('C05_HANDLE_MODEL', 'perhandle')   # mirrors /repo since fix b23b24a (F130)
 
 TUPLE_MARKER = '__tuple__'
 TYPE_KEY = '_type'
